@@ -169,12 +169,26 @@ class Env:
     def reached(self) -> None:
         self.reached_count += 1
 
+    def is_symbolic(self, value) -> bool:
+        """True iff `value` is a solver-backed proxy (under tracing `type()` / `isinstance` report the emulated type)."""
+        if not self.symbolic:
+            return False
+        with _CH.tracers.NoTracing():
+            return isinstance(value, _CH.core.CrossHairValue)
+
     def untraced(self):
         """Context manager: run a block outside CrossHair's tracing (set-up code that is not the subject)."""
         if self.symbolic:
             return _CH.tracers.NoTracing()
         import contextlib
         return contextlib.nullcontext()
+
+
+def is_symbolic_value(value) -> bool:
+    """True iff `value` is a solver-backed proxy (under tracing `type()` / `isinstance` report the emulated type)."""
+    ch = _load_crosshair()
+    with ch.tracers.NoTracing():
+        return isinstance(value, ch.core.CrossHairValue)
 
 
 def _make_symbolic(typ: type, name: str) -> Any:
